@@ -87,6 +87,13 @@ theorem inv_storeT {s : State} {i : Nat} {th : Th} {a : Abs} {K : Prog}
           exact List.mem_cons_of_mem _ (hG.own b hb th (hij ▸ hth))
         · simp only [hij, if_false] at hj
           exact hG.own b hb thj hj
+    · simp only [Sh.record]
+      exact ordered_cons hG.ordered hth (fun x hx => List.mem_cons_of_mem _ hx) rfl
+        (fun b hb hc => List.mem_cons_of_mem _ (writer_norace (f := .t) (atm := true) hG hth hw ht (by decide) (fun h => by cases h) b hb hc))
+    · intro h; simp at h
+    · simp only [Sh.record]
+      refine List.pairwise_cons.mpr ⟨fun b hb hst => ?_, hG.noWriteAfterStore⟩
+      rw [hG.rawNoStore ht b hb] at hst; cases hst
   · refine ⟨_, hK, ?_⟩
     refine { hW := hok.hW, hR := hok.hR, lkHeld := hok.lkHeld, wlw := fun _ => ⟨rfl, rfl, rfl⟩,
              wlH := (by intro h; cases h), wpH := (by intro h; cases h), wcH := (by intro h; cases h),
